@@ -399,7 +399,16 @@ class _SyncWs:
         if not self.conn.server_closed and not self.conn.peer_gone:
             self.conn.server_closed = True
             _SyncWs.world._ws_closed_by_server(self.conn)
-            self.inq.put(_CLOSED)
+            # L2: the writer closing the socket is a primitive of its own (it wakes the reader)
+            hub = _SyncWs.world.hub
+            if hub.primlog is not None:
+                rec = {'t': getattr(hub.current, 'proc', None), 'op': 'ws_close', 'item': '',
+                       'q': 'ws'}
+                self.inq.put_quiet(_CLOSED)
+                hub.primlog.append(rec)
+                hub.after_log(rec)
+            else:
+                self.inq.put(_CLOSED)
         elif not self.conn.server_closed:
             self.conn.server_closed = True
             _SyncWs.world._ws_closed_by_server(self.conn)
